@@ -226,13 +226,22 @@ theorem except_bind_ok {ε α β} {x : Except ε α} {f : α → Except ε β} {
   | error e => cases h
   | ok a => exact ⟨a, rfl, h⟩
 
+theorem except_throw_step {ε α : Type} {c : Bool} {e : ε} {k : Unit → Except ε α} {x : α}
+    (h : (if c = true then (throw e >>= k) else k ()) = Except.ok x) : k () = .ok x := by
+  cases c
+  · exact h
+  · cases h
+
 /-- every configuration produced by the loader has a consistent `doFSM` flag -/
-theorem load_doFSMConsistent (rxOk : Bytes → Bool) (db : List V) (dq : List (V × V)) (raw : RawConfig V)
+theorem load_doFSMConsistent [NumOps V] (rxOk : Bytes → Bool) (db : List V) (dq : List (V × V)) (raw : RawConfig V)
     (cfg : Config V) (h : load rxOk db dq raw = .ok cfg) : DoFSMConsistent cfg := by
   unfold load at h
   obtain ⟨_, _, h⟩ := except_bind_ok h
   obtain ⟨_, _, h⟩ := except_bind_ok h
   obtain ⟨_, _, h⟩ := except_bind_ok h
+  -- `validateBuckets` / `validateSummaryOptions` on the effective defaults
+  have h := except_throw_step h
+  have h := except_throw_step h
   obtain ⟨_, _, h⟩ := except_bind_ok h
   cases h
   rfl
